@@ -250,6 +250,36 @@ def normalize_tree(tree: ast.AST) -> ast.AST:
                         x.end_col_offset = getattr(st, "end_col_offset", st.col_offset)
                 idx = next(j for j, y in enumerate(lst) if y is st)
                 lst[idx] = new_st
+    # clamp idioms:  `if a > b: a = b`  is  a = min(a, b);  `if a < b: a = b`  is  a = max(a, b)   (also >=, <= and the
+    # mirrored tests `if b < a: a = b`).  builtin min/max return their first argument unless the second is strictly
+    # smaller/larger, so for the totally ordered numbers these rules deal with the two forms assign equal values.
+    class Clamp(ast.NodeTransformer):
+        def visit_If(self, node):
+            node = self.generic_visit(node)
+            if node.orelse or len(node.body) != 1 or not isinstance(node.body[0], ast.Assign) or len(node.body[0].targets) != 1:
+                return node
+            asg = node.body[0]
+            t = node.test
+            if not (isinstance(asg.targets[0], ast.Name) and isinstance(t, ast.Compare) and len(t.ops) == 1):
+                return node
+            a = asg.targets[0].id
+            b = asg.value
+
+            def simple(e):
+                return isinstance(e, (ast.Name, ast.Constant)) or (isinstance(e, ast.Attribute) and simple(e.value))
+            if not simple(b):
+                return node
+            l, r, op = t.left, t.comparators[0], t.ops[0]
+            kind = None
+            if isinstance(l, ast.Name) and l.id == a and ast.dump(r) == ast.dump(b):
+                kind = "min" if isinstance(op, (ast.Gt, ast.GtE)) else ("max" if isinstance(op, (ast.Lt, ast.LtE)) else None)
+            elif isinstance(r, ast.Name) and r.id == a and ast.dump(l) == ast.dump(b):
+                kind = "min" if isinstance(op, (ast.Lt, ast.LtE)) else ("max" if isinstance(op, (ast.Gt, ast.GtE)) else None)
+            if kind is None:
+                return node
+            new = ast.Assign(targets=[ast.Name(id=a, ctx=ast.Store())], value=ast.Call(func=ast.Name(id=kind, ctx=ast.Load()), args=[ast.Name(id=a, ctx=ast.Load()), copy.deepcopy(b)], keywords=[]))
+            return ast.copy_location(new, node)
+    tree = Clamp().visit(tree)
     ast.fix_missing_locations(tree)
     return tree
 
